@@ -245,32 +245,38 @@ Section Parser.
 
   Definition k_of_key (s : String.string) : str := s_ s.
 
+  (* the keywords of the class built by _parse_object: the object keywords present in the
+     schema, and the declared properties plus a synthetic Element property for every required
+     name without one *)
+  Definition obj_record (S : list (str * json)) (K : kwds elem) : kwds elem :=
+    let props0 := match k_properties K with Some l => l | None => [] end in
+    let req := match lookup (s_ "required") S with Some j => jstr_list j | None => [] end in
+    let synth := flat_map (fun key =>
+                    if has_key (attr key) props0 then []
+                    else [(attr key, mkProp EElement true key)]) req in
+    let props := dict_merge props0 (dict_of_pairs synth) in
+    let has p := has_key (s_ p) S in
+    let o {A} (p : String.string) (x : option A) : option A := if has p then x else None in
+    mkK (o "default" (k_default K)) (o "const" (k_const K)) (o "enum" (k_enum K))
+        None (AddBool true) None None false None None None None None None None None None None
+        None (Some props) (o "patternProperties" (k_patternProperties K))
+        (k_additionalProperties K)
+        (o "minProperties" (k_minProperties K)) (o "maxProperties" (k_maxProperties K))
+        (o "propertyNames" (k_propertyNames K)) (o "dependencies" (k_dependencies K))
+        (o "description" (k_description K)).
+
+  (* the class name: "title", else "_x_autotitle" *)
+  Definition obj_title (S : list (str * json)) : option json :=
+    match lookup (s_ "title") S with
+    | Some t => Some t
+    | None => lookup (s_ "_x_autotitle") S end.
+
   (* _parse_object on an already sub-parsed keyword record *)
   Definition parse_object (S : list (str * json)) (K : kwds elem) : M elem :=
-    let title := match lookup (s_ "title") S with
-                 | Some t => Some t
-                 | None => lookup (s_ "_x_autotitle") S end in
-    match title with
+    match obj_title S with
     | None => fail PSchemaParse
     | Some (JStr []) => fail PSchemaParse
-    | Some (JStr t) =>
-      let props0 := match k_properties K with Some l => l | None => [] end in
-      let req := match lookup (s_ "required") S with Some j => jstr_list j | None => [] end in
-      let synth := flat_map (fun key =>
-                      if has_key (attr key) props0 then []
-                      else [(attr key, mkProp EElement true key)]) req in
-      let props := dict_merge props0 (dict_of_pairs synth) in
-      let has p := has_key (s_ p) S in
-      let o {A} (p : String.string) (x : option A) : option A := if has p then x else None in
-      let k :=
-        mkK (o "default" (k_default K)) (o "const" (k_const K)) (o "enum" (k_enum K))
-            None (AddBool true) None None false None None None None None None None None None None
-            None (Some props) (o "patternProperties" (k_patternProperties K))
-            (k_additionalProperties K)
-            (o "minProperties" (k_minProperties K)) (o "maxProperties" (k_maxProperties K))
-            (o "propertyNames" (k_propertyNames K)) (o "dependencies" (k_dependencies K))
-            (o "description" (k_description K)) in
-      dedupe (EObj (title_format t) [s_ "Object"] k)
+    | Some (JStr t) => dedupe (EObj (title_format t) [s_ "Object"] (obj_record S K))
     | Some j => if py_truthy j then fail PCrash else fail PSchemaParse
     end.
 
